@@ -1,9 +1,18 @@
-(* C01 — no request makes the server panic (the part of it covered by this model:
-   Reader, name parsing, OPT/TSIG RDATA validation, the whole pre-scan with the Writer's
-   size arithmetic for question/EDNS/TSIG reservations, and the opcode/QTYPE/catalog dispatch).
-   Query answering inside a loaded zone ([answer]) and HMAC verification ([verify]) are
-   parameters: their own totality is the subject of C05/C06/C12 (writer) and C11. *)
+(* C01 — no request makes the server panic.
+   c01_no_panic: the COMPOSED model (Model/ServerW.v) — request side: Reader, name parsing, OPT/TSIG
+   RDATA validation, the whole pre-scan, the opcode/QTYPE/catalog dispatch (Model/Server.v); response
+   side for a clean QUERY in a Loaded zone: the query model (Model/Query.v) over the tree zone
+   (Model/ZoneTree.v) driving the octet-level Writer (Model/MsgWriter.v) up to and including finish —
+   returns a response or none, never Panic; every other response without a TSIG (NOTIMP / REFUSED /
+   SERVFAIL to a clean QUERY; FORMERR, BADVERS, ... decided by the pre-scan) is likewise produced in
+   octets by the Writer model (QueryW.respond_plain, ServerW.serialize_resp).  Still parameters
+   (universally quantified): HMAC verification [verify] (its totality on the TSIG model is C11), and
+   query answering [answer] for a request whose TSIG VERIFIED; a response that carries a TSIG stays
+   abstract (the Writer model has no signing TSIG mode).
+   c01_no_panic_partial: the first-wave statement (request side only), kept. *)
 From QV Require Import Base.ListX Model.NameWire Model.Reader Model.RdataLite Model.Server Proofs.ReaderP Proofs.ServerP.
+From QV Require Import Model.ZoneTree Model.Query Model.QueryW Model.ServerW Proofs.ZoneTopP
+  Proofs.ComposeTraceP Proofs.ComposeSrvP.
 
 Theorem c01_no_panic_partial : forall answer verify cfg req, wf_cfg cfg -> wf_bytes req ->
   exists x, handle_message answer verify cfg req = Ok x.
@@ -19,4 +28,57 @@ Example c01_tsig_reservation_can_fail :
   set_tsig w t = Err WTruncation /\ set_tsig_or_truncate w t = (set_tc w, false).
 Proof. split; vm_compute; reflexivity. Qed.
 
+(* THE COMPOSITION.  For every request (octets < 256), transport, EDNS size in [512, 65535], response
+   buffer of the size handle_message demands, key set, verifier, and every catalog whose Loaded
+   entries are zones built by adds ([catalog_ok]: zone_build over any record list whose RDATA are
+   at most 65535 octets < 256 with 16-bit types, any transitive Rdata::equals, a valid apex Name):
+   the composed model returns Ok — a response (the finished OCTETS, or abstract iff it carries a TSIG)
+   or none.  Inside: every zone lookup, RDATA name parse, CNAME chase and
+   PreviousOwners push of query.rs, every Writer operation it issues (shown to obey the Writer's
+   hint contract: Proofs/ComposeKeyP.v), rollbacks, clear_rrs, the error mapping, and finish. *)
+Theorem c01_no_panic : forall zones negttl answer verify cfg buf req,
+  wf_cfg cfg -> length buf = c_buflen cfg -> catalog_ok cfg zones -> wf_bytes req ->
+  exists x, handle_message_w zones negttl answer verify cfg buf req = Ok x.
+Proof. intros zones negttl answer verify cfg buf req H1 H2 H3 H4. exact (handle_message_w_total zones negttl answer verify cfg buf H1 H2 (fun _ _ => True) H3 req H4). Qed.
+
+(* the composed dispatch is Server.handle_query's: whenever the composed model answers abstractly,
+   the answer is the one of the request-side model *)
+Theorem c01_composed_dispatch_same : forall zones negttl answer cfg buf w w',
+  handle_query_w zones negttl answer cfg buf w = Ok (RAbs w') -> w' = handle_query answer cfg w.
+Proof. exact handle_query_w_same. Qed.
+
+(* Non-vacuity: a catalog with the zone "a." (class IN; a. A 1.2.3.4, a. NS ns.a., ns.a. A 5.6.7.8)
+   satisfies catalog_ok, and the query "a. NS" over UDP is answered from it in octets (header, echoed
+   question, the NS record with compressed owner and RDATA, the glue address with a hint-vector owner). *)
+Definition ex_recs : list record :=
+  [mk_record [[97]]%N 1 1 300 [1;2;3;4]%N;
+   mk_record [[97]]%N 2 1 300 [2;110;115;1;97;0]%N;
+   mk_record [[110;115];[97]]%N 1 1 300 [5;6;7;8]%N].
+Definition ex_zone : option zone := zone_build req_simple (zone_new [[97]]%N 1 false) ex_recs.
+Definition ex_cfg : config := mkConfig Udp 512 512 [mkEntry 1 [[97]]%N (ELoaded 0)] [] 0.
+Definition ex_req : bytes := [0;7; 0;0; 0;1; 0;0; 0;0; 0;0; 1;97;0; 0;2; 0;1]%N.
+
+Example c01_example_catalog_ok : catalog_ok ex_cfg (fun _ => ex_zone).
+Proof.
+  intros e zid [<-|[]] Hk. inversion Hk; subst zid.
+  destruct ex_zone as [z|] eqn:Ez; [|vm_compute in Ez; discriminate].
+  exists z, req_simple, [[97]]%N, false, ex_recs. split; [reflexivity|].
+  split; [exact req_simple_trans|]. split; [exact Ez|]. split; [reflexivity|].
+  split; [split; [split; [repeat constructor; cbv; lia|simpl; lia]|simpl; lia]|].
+  split; [|exact I]. repeat constructor; try (cbv; lia); try (apply wf_bytesb_spec; reflexivity).
+Qed.
+
+Example c01_example_answer :
+  match handle_message_w (fun _ => ex_zone) neg_ttl (fun _ _ _ _ => empty_body) (fun _ _ _ _ _ _ => VOk)
+          ex_cfg (repeat 0%N 512) ex_req with
+  | Ok (Some (ROctets len b)) =>
+    firstn len b = [0;7; 132;0; 0;1; 0;1; 0;0; 0;1;  1;97;0; 0;2; 0;1;
+                    192;12; 0;2; 0;1; 0;0;1;44; 0;5; 2;110;115;192;12;
+                    192;31; 0;1; 0;1; 0;0;1;44; 0;4; 5;6;7;8]%N
+  | _ => False
+  end.
+Proof. vm_compute. reflexivity. Qed.
+
 Print Assumptions c01_no_panic_partial.
+Print Assumptions c01_no_panic.
+Print Assumptions c01_composed_dispatch_same.
